@@ -28,10 +28,10 @@ ASSUMPTIONS = [
 
 ALPHA1 = "qzQZ01"
 ALPHA2 = "jxJX98"
-TMPL = st.lists(st.sampled_from(["c", "c", "c", "c", " ", "%", "%s", "%(x)s", "{}", "{0}", "é", "\t", '"', "\\", "%d", "*"]),
+TMPL = st.lists(st.sampled_from(["c", "c", "c", "c", " ", "%", "%s", "%(x)s", "{}", "{0}", "é", "\t", '"', "\\", "%d", "*", "я", "€", "\udc80"]),
                 min_size=1, max_size=12)
 MODES = ["client", "client", "raw", "early", "twice", "free", "nouser", "reuser", "client_context", "overlimit", "overlimit_server",
-         "error_paths"]
+         "error_paths", "client_latin1", "client_ascii", "client_latin1"]
 CASE = st.tuples(TMPL, st.sampled_from(MODES), st.sampled_from(["PASS", "pass", "PaSs"]), st.booleans())
 
 
@@ -85,6 +85,16 @@ async def session(loop, pw, stored, mode, verb):
             await raw.cmd(ln)
         raw.send(verb + " " + pw)
         raw.close()
+    elif mode in ("client_latin1", "client_ascii"):
+        # a client whose encoding may be unable to carry the password: the failure must not spill it either
+        c = aioftp.Client(path_io_factory=aioftp.MemoryPathIO, encoding="latin-1" if mode == "client_latin1" else "ascii")
+        await c.connect(HOST, PORT)
+        try:
+            await c.login("bob", pw)
+            await c.get_current_directory()
+        except (aioftp.StatusCodeError, UnicodeError, ConnectionError):
+            pass
+        c.close()
     elif mode == "client":
         c = aioftp.Client(path_io_factory=aioftp.MemoryPathIO)
         await c.connect(HOST, PORT)
@@ -134,7 +144,10 @@ def check(ctx, case):
         logging.getLogger().addHandler(cap)
         for p in (p1, p2, p3):
             cap.recs.clear()
-            simnet.run(lambda l: session(l, p, p if accept else "other-stored", mode, verb))
+            try:
+                simnet.run(lambda l: session(l, p, p if accept else "other-stored", mode, verb))
+            except UnicodeError:
+                pass  # the harness' own raw client cannot encode a lone surrogate: the attempt ends there, logs still count
             logs.append(list(cap.recs))
     finally:
         logging.getLogger().removeHandler(cap)
@@ -149,7 +162,9 @@ def check(ctx, case):
     if len(logs[0]) < 4:
         raise Violation("C20/harness/no_log_records", dict(n=len(logs[0])))
     side = "client" if mode.startswith("client") else "server"
-    for other, px in ((logs[1], p2), (logs[2], p3)):
+    unencodable = any(x in ("я", "€", "\udc80") for x in t) or (mode in ("client_latin1", "client_ascii") and any(ord(ch) > 127 for x in t for ch in x))
+    for other, px in ((logs[1], p2),) if unencodable else ((logs[1], p2), (logs[2], p3)):
+        # (the third twin replaces special items by plain characters: with an un-encodable item the sessions legitimately differ)
         if logs[0] != other:
             diff = [(a, b) for a, b in zip(logs[0], other) if a != b][:3]
             who = sorted({a[0] for a, b in diff}) or ["length"]
